@@ -207,7 +207,13 @@ func VerifC08Siblings() {
 			}
 		case 4:
 			if az, err := NewVerifier(parent, gPatient); err == nil {
-				az.AddFact(Fact{Predicate{Name: sc.name, IDs: []Term{Integer(9), String("zz-authorizer-only")}}})
+				if vChoose("authorizer-content", 2) == 0 {
+					az.AddFact(Fact{Predicate{Name: sc.name, IDs: []Term{Integer(9), String("zz-authorizer-only")}}})
+				} else {
+					// no fact or rule of its own: only a check and a policy, both with strings the token has never seen
+					az.AddCheck(Check{Queries: []Rule{{Head: Predicate{Name: "query"}, Body: []Predicate{{Name: sc.name, IDs: []Term{String("zz-check-only")}}}}}})
+					az.AddPolicy(Policy{Kind: PolicyKindDeny, Queries: []Rule{{Head: Predicate{Name: "deny"}, Body: []Predicate{{Name: "zz-revoked", IDs: []Term{String("zz-policy-only")}}}}}})
+				}
 				az.AddPolicy(DefaultAllowPolicy)
 				az.Authorize()
 			}
